@@ -3,7 +3,7 @@ used by the generators to produce mostly-valid histories."""
 
 CODES = {
     'new': 1, 'with_capacity': 2, 'with_default': 3, 'with_value': 4, 'with_init': 5, 'from_row': 6, 'from_col': 7,
-    'from_arrays': 8, 'try_from': 9, 'from_iter': 10, 'macro': 11, 'default': 12,
+    'from_arrays': 8, 'try_from': 9, 'from_iter': 10, 'macro': 11, 'default': 12, 'from_iter_hint': 13,
     'order': 20, 'shape': 21, 'nrows': 22, 'ncols': 23, 'size': 24, 'is_empty': 25, 'capacity_ge': 26,
     'get': 27, 'index': 29, 'get_unchecked_w': 31, 'contains': 32, 'is_square': 33, 'conform_ew': 34,
     'conform_mul': 35, 'ensure_square': 36, 'ensure_ew': 37, 'ensure_mul': 38, 'eq': 39, 'display': 40, 'debug': 41,
@@ -101,7 +101,7 @@ class Shadow:
             nc = len(rows[0]) if rows else 0
             if all(len(r) == nc for r in rows):
                 s[a[0]] = [len(rows), nc, 0]
-        elif name == 'from_iter':
+        elif name in ('from_iter', 'from_iter_hint'):
             if rows:
                 nc = len(rows[0])
                 if all(len(r) == nc for r in rows):
